@@ -98,3 +98,27 @@ def a_function(x=None):
 class HasMethod:
     def method(self):
         return None
+
+
+class StrLike:
+    """NOT a str, but it hashes and compares like the string 'a' (collections.UserString, a path object, an interned key)."""
+
+    def __init__(self, text="a"):
+        self.text = text
+
+    def __hash__(self):
+        return hash(self.text)
+
+    def __eq__(self, other):
+        return self.text == (other.text if isinstance(other, StrLike) else other)
+
+
+class _CountingMeta(type):
+    """A registry metaclass: len(cls) counts registered plugins - zero here, so the CLASS OBJECT is falsy."""
+
+    def __len__(cls):
+        return 0
+
+
+class FalsyCls(metaclass=_CountingMeta):
+    pass
